@@ -1,12 +1,158 @@
-(* C06 — see manifest.d/C06.json: what is proved for the scheduler model so far is
-   the lifecycle invariant (Props/C01.v); this file restates the part of it that
-   C06 relies on, so that the check of C06 fails when the model or that proof breaks.
-   The property itself is decided by the correspondence and the direct oracle of
-   harness/drivers/c06.py on every run. *)
-From Hio Require Import Base.Prelude Base.AMap Base.Time Model.Sched Proofs.SchedLife Proofs.SchedTop.
+(* C06 — runtime extend/remove take effect exactly and preserve membership.
+   Model: Model/Sched.v (run_effects, enter_local, close_list).
+   Proofs: Proofs/SchedDequeEffects.v on top of the two invariants of
+   Proofs/SchedDequeAll.v / SchedDequeUniq.v and the close order of SchedDequeOrder.v.
 
-Theorem C06_lifecycles_core :
-  forall (T : Type) (TT : Time T) (cycles fuel : nat) (p : prog T) (j : id),
-    life_ok (get_gen (do_run cycles fuel p) j) (events j (do_run cycles fuel p)).
-Proof. intros. apply do_run_lifecycles. Qed.
-Print Assumptions C06_lifecycles_core.
+   FULL statement: (e1) doers added at run time are entered immediately, at the
+   caller's tyme, before extend() returns; (e2) they first recur in the next
+   cycle; (e3) adding present doers does nothing; (r1) removed doers are ceased
+   and exited before remove() returns and never recur again; (r2) a doer removing
+   itself keeps running; (m) the doers list is the insertion-ordered list of the
+   added-and-not-removed doers.
+   Proved here, for one effect executed on a live target from ANY state (for
+   remove: any state satisfying the two invariants, i.e. every reachable state of
+   a program of class W):
+     e1 (window: unchanged tyme, every event at that tyme, no Recur before ExtRet,
+         exact new doers/deeds)                        [C06_extend_window]
+     e3                                                [C06_extend_present_identity]
+     "the new deeds are behind the marker of a pass under way, so the scheduler
+      whose pass is running does not send them in this pass" — the structural
+      half                                             [C06_extend_behind_marker]
+     r1, r2, m for remove                              [C06_remove]
+     m for extend: doers' = doers ++ new               [C06_extend_window, last clause]
+   e2 in full is FALSE of the code (open finding D42: extending a DoDoer that has
+   not yet had its pass in the current root cycle) — [C06_next_cycle_refuted].
+   NOT PROVED (checked by the correspondence and the call-log oracle of
+   harness/drivers/c06.py on every run): that each new doer's Enter event occurs
+   in the window (e1, first half), e2 for the scheduler whose pass is running,
+   and (m) over arbitrary interleavings with nested effects. *)
+From Hio Require Import Base.Prelude Base.AMap Base.Time Model.Sched Proofs.SchedLife Proofs.SchedTop
+  Proofs.SchedDeque Proofs.SchedDequeHold Proofs.SchedDequeAll Proofs.SchedDequeUniq Proofs.SchedDequeOrder
+  Proofs.SchedDequeEffects Proofs.SchedDequeTop Proofs.SchedDequeTop2.
+
+(* one extend(): new := the not-present doers, deduplicated; they are entered
+   (running their first resumption) with the tyme unchanged, every event of the
+   window carries that tyme and none is a Recur; then doers := doers ++ new,
+   deeds := deeds ++ (deeds of those that yielded), ExtRet, and the caller goes on *)
+Theorem C06_extend_window :
+  forall (T : Type) (TT : Time T) (tk : T) (f : nat) (s : st T) (c t : id) (news : list id)
+         (rest : list effect) (s' : st T) (r : gres),
+    live s t = true ->
+    run_effects tk (S f) s c (EExtend t news :: rest) = (s', r) ->
+    exists s1 r1 acc seg,
+      enter_local tk f s (new_of s t news) [] = (s1, r1, acc) /\
+      tyme s1 = tyme s /\ trace s1 = seg ++ trace s /\
+      Forall (fun e => e_kind e <> Recur /\ e_tyme e = tyme s) seg /\
+      match r1 with
+      | GRaise kbd => (s', r) = (s1, GRaise kbd)
+      | GFuel => (s', r) = (s1, GFuel)
+      | _ => run_effects tk f
+               (emit (set_sched s1 t {| doers := doers (get_sched s1 t) ++ new_of s t news;
+                                        deeds := deeds (get_sched s1 t) ++ acc |}) ExtRet c) c rest = (s', r)
+      end.
+Proof. intros. now apply extend_step. Qed.
+Print Assumptions C06_extend_window.
+
+(* the state in which doer 1 of [w_prog] makes its calls: after the enter phase *)
+Definition w_state : st Z :=
+  set_rlive (fst (enter_own 1%Z 100 (init_st w_prog) 0%N (p_doers w_prog))) true.
+
+Example C06_extend_example :
+  live w_state 2%N = true /\
+  new_of w_state 2%N [3; 6; 6]%N = [6]%N /\
+  oof (fst (run_effects 1%Z 50 w_state 1%N [EExtend 2%N [3; 6; 6]%N])) = false /\
+  doers (get_sched (fst (run_effects 1%Z 50 w_state 1%N [EExtend 2%N [3; 6; 6]%N])) 2%N) = [3; 4; 6]%N.
+Proof. vm_compute. repeat split. Qed.
+
+Theorem C06_extend_present_identity :
+  forall (T : Type) (TT : Time T) (tk : T) (f : nat) (s : st T) (c t : id) (news : list id)
+         (rest : list effect) (s' : st T) (r : gres),
+    live s t = true -> (forall x, In x news -> In x (doers (get_sched s t))) ->
+    run_effects tk (S (S f)) s c (EExtend t news :: rest) = (s', r) ->
+    exists s2, run_effects tk (S f) s2 c rest = (s', r) /\
+      trace s2 = {| e_kind := ExtRet; e_id := c; e_tyme := tyme s |} :: trace s /\
+      (forall x, get_sched s2 x = get_sched s x) /\ gens s2 = gens s /\ dones s2 = dones s /\ tyme s2 = tyme s.
+Proof. intros. eapply extend_present; eassumption. Qed.
+Print Assumptions C06_extend_present_identity.
+
+Example C06_extend_present_example :
+  live w_state 2%N = true /\ forallb (fun x => memN x (doers (get_sched w_state 2%N))) [4; 3; 4]%N = true.
+Proof. vm_compute. split; reflexivity. Qed.
+
+(* with a pass of the target under way (deque = unrun ++ marker :: rerun) the new
+   deeds land behind the marker: the pass, which stops at the marker, does not
+   reach them; exit() un-rotates them to the end *)
+Theorem C06_extend_behind_marker :
+  forall (T : Type) (u r acc : list (deed T)),
+    ~ In DMark u ->
+    split_mark ((u ++ DMark :: r) ++ acc) [] = Some (u, r ++ acc) /\
+    unrotate ((u ++ DMark :: r) ++ acc) = (r ++ acc) ++ u.
+Proof. intros. now apply extend_behind_marker. Qed.
+Print Assumptions C06_extend_behind_marker.
+
+(* one remove(): rd := the present doers among the arguments, deduplicated; their
+   deeds are taken out of the deque and closed: every removed suspended doer gets
+   its Cease (then Exit, C01) before RemRet, in the reverse of the un-rotated deque
+   order, all at the unchanged tyme; afterwards it is GDone and no deque holds a
+   deed for it (so it cannot recur again unless it is extended again); the doers
+   list is the old one minus rd; the caller — also when it removes itself — is
+   still executing and goes on with its remaining effects *)
+Theorem C06_remove :
+  forall (T : Type) (TT : Time T) (tk : T) (f : nat) (s : st T) (c t : id) (who : list id)
+         (rest : list effect) (s' : st T) (r : gres) (X : list id),
+    live s t = true -> Hold s X -> Hold2 s X ->
+    run_effects tk (S f) s c (ERemove t who :: rest) = (s', r) ->
+    let rd := rdoers_of s t who in
+    let rdeeds := filter (is_rem rd) (unrotate (dq s t)) in
+    let s1 := set_sched s t {| doers := fold_left (fun l d => remove_first d l) rd (doers (get_sched s t));
+                               deeds := filter (fun d => negb (is_rem rd d)) (dq s t) |} in
+    let s2 := close_list tk f s1 (rev rdeeds) in
+    run_effects tk f (emit s2 RemRet c) c rest = (s', r) /\
+    (oof s2 = false ->
+       (exists seg, trace s2 = seg ++ trace s /\ tops (dids (rev rdeeds)) seg = dids (rev rdeeds) /\
+                    Forall (fun e => e_tyme e = tyme s) seg) /\
+       (forall i, In i (dids rdeeds) -> get_gen s2 i = GDone /\ forall sid, ~ In i (qids s2 sid)) /\
+       doers (get_sched s2 t) = fold_left (fun l d => remove_first d l) rd (doers (get_sched s t)) /\
+       (running s c -> running s2 c) /\ Hold s2 X /\ Hold2 s2 X).
+Proof. intros. eapply remove_step; eassumption. Qed.
+Print Assumptions C06_remove.
+
+(* the hypotheses of C06_remove hold in the state after the enter phase of w_prog *)
+Example C06_remove_example :
+  live w_state 0%N = true /\ Hold w_state [] /\ Hold2 w_state [] /\
+  rdoers_of w_state 0%N [5; 9; 5; 1]%N = [5; 1]%N /\
+  oof (fst (run_effects 1%Z 50 w_state 7%N [ERemove 0%N [5; 9; 5; 1]%N])) = false /\
+  doers (get_sched (fst (run_effects 1%Z 50 w_state 7%N [ERemove 0%N [5; 9; 5; 1]%N])) 0%N) = [2]%N.
+Proof.
+  assert (E : exists s1 r, enter_own 1%Z 100 (init_st w_prog) 0%N (p_doers w_prog) = (s1, r) /\
+                           oof s1 = false /\ w_state = set_rlive s1 true).
+  { eexists _, _. split; [vm_compute; reflexivity|]. split; [reflexivity|]. vm_compute. reflexivity. }
+  destruct E as (s1 & r & E & O & Ws).
+  assert (Hw : W (p_defs w_prog)) by (apply Wb_W; vm_compute; reflexivity).
+  destruct (after_enter 100 w_prog s1 r Hw E O) as [Hh Hh2].
+  split; [vm_compute; reflexivity|]. split; [rewrite Ws; exact Hh|]. split; [rewrite Ws; exact Hh2|].
+  vm_compute. repeat split.
+Qed.
+
+(* "first recur in the next cycle" is false of the code for a target that has not
+   yet had its pass in the current root cycle (finding D42): doer 1 extends the
+   suspended DoDoer 2 with doer 4 at tyme 0; 4 recurs at tyme 0 *)
+Definition d42_prog : prog Z :=
+  let Y := {| f_es := []; f_out := OYield None |} in
+  let R := {| f_es := []; f_out := OReturn RTrue |} in
+  {| p_tock := 1%Z; p_limit := Some 6%Z; p_tyme := 0%Z; p_doers := [1; 2]%N;
+     p_defs := [(1, FLeaf KFunc [Y; {| f_es := [EExtend 2 [4]]; f_out := OYield None |}; R]);
+                (2, FNest 0%Z true [3]);
+                (3, FLeaf KDoer [Y; Y; Y]);
+                (4, FLeaf KFunc [Y; Y; R])]%N |}.
+Theorem C06_next_cycle_refuted :
+  exists (p : prog Z) cycles fuel (j : id) (t : Z),
+    Wb (p_defs p) = true /\ oof (do_run cycles fuel p) = false /\
+    In {| e_kind := Enter; e_id := j; e_tyme := t |} (trace (do_run cycles fuel p)) /\
+    In {| e_kind := Recur; e_id := j; e_tyme := t |} (trace (do_run cycles fuel p)) /\
+    ~ In j (p_doers p).
+Proof.
+  exists d42_prog, 10%nat, 100%nat, 4%N, 0%Z. vm_compute.
+  repeat split; try (intuition congruence); tauto.
+Qed.
+Print Assumptions C06_next_cycle_refuted.
